@@ -19,8 +19,8 @@ CLAIMED = {
          "registry converters trusted (assumed non-nil and panic-free); sync locks no-ops"),
  "C02": ("Only the call-argument binding clause of the statement: entering a compiled function binds fixed parameters to the arguments in order, packs the remaining arguments of a variadic function into an array and leaves every other local undefined - proved for calls from Go (VM.initLocals) and for in-script calls without spread (VM.xOpCallCompiled, flags == 0) against the same clauses, including the frame re-use of a self-recursive tail call (after which the stack pointer is back below the callee slot and the abandoned slots are nil); the packed variadic array shares no storage with the caller's arguments or the stack. Everything else in the statement (evaluation order, scoping, closures, compound assignment, loops, spread calls, destructuring) is not covered; The tail-call clause is stated on the same function: a frame is re-used only when the instruction after the call is RETURN; the CALL; POP; RETURN shape (the discarded self-call returns the callee's value where ordinary recursion returns undefined) fails that clause and is the one open known finding (KNOWN-FINDING line, see known_findings.json: the repair conflicts with an existing test).",
          "call preconditions vmCallOK (callee below the arguments, frame fits the stack, a function calling itself has its locals below the callee); one parked obligation (variadic + tail call) listed in the evidence"),
- "C06": ("The recovery path itself is total: handlePanic (called by run()'s deferred function outside any recover), throwGenErr, throw and handleThrownError never panic in any VM state satisfying vmPanicPoint (current frame exists, handlers remember non-negative stack pointers, callers' frames still have their functions) - the stack pointer, instruction pointer and frame index may be anything, including at or beyond their limits; handlePanic leaves either vm.err set or a VM state in which the loop can be re-entered. Not decided: that every panic raised inside VM.loop, builtins or callbacks reaches run()'s recover (Go semantics of defer/recover are not modelled), that vmPanicPoint holds at every instruction of VM.loop (assumed, stated in the evidence), Run's epilogue, Invoker paths, and that the VM is reusable afterwards (C07).",
-         "vmPanicPoint is an assumed invariant of VM.loop (not verified: the 60-opcode loop is outside the functions under contract); dynamic Error()/String() calls on error values and runtime.Stack assumed panic-free; recover/defer semantics not modelled"),
+ "C06": ("The recovery path itself is total: handlePanic (called by run()'s deferred function outside any recover), throwGenErr, throw and handleThrownError never panic in any VM state satisfying vmPanicPoint (current frame exists, handlers remember non-negative stack pointers, callers' frames still have their functions) - the stack pointer, instruction pointer and frame index may be anything, including at or beyond their limits; handlePanic leaves either vm.err set or a VM state in which the loop can be re-entered. Second layer: that assumption is itself checked on the real interpreter loop - VM.loop is verified once per opcode (45 runs) in 'panic mode': every safety condition (index, nil, assertion, division, make), every call into code outside the module or through an interface and every explicit panic becomes the obligation 'vmPanicPoint holds here', and every arm re-establishes the loop invariant (current frame == frames[frameIndex-1] with its function, callers' frames intact, handlers with non-negative sp, sp >= 0); the throw path and the call/throw opcodes have panic-mode contracts of their own. Not decided: that every panic raised reaches run()'s recover (defer/recover semantics are not modelled); 12 parked obligations (sp >= 0 across calls needs the compiler's stack discipline; two engine limits) listed in the evidence; Run's epilogue, Invoker paths, reuse of the VM afterwards (C07).",
+         "dynamic calls (Object methods of user types, Go callbacks) may panic but are assumed not to write the VM's own fields; functions not inlined (depth 8 / recursion) are replaced by their transitive mod-set; dynamic Error()/String() calls on error values and runtime.Stack assumed panic-free; recover/defer semantics not modelled"),
  "C07": ("Installing bytecode, clearing a VM and setting up frame 0 are functions of their inputs only and never write the Bytecode: SetBytecode, Clear (every stack slot nil, cache and globals dropped), initCurrentFrame, clearCurrentFrame, each with a proved frame clause listing exactly the VM fields written. Not decided: the Run prologue as a whole (two-state non-interference), OP_CLOSURE, slots above sp / frames above frameIndex never being read before written.",
          "sync locks no-ops; vmPool.clear modelled through the map component"),
  "C12": ("Module store: addModule hands out index == old count, keeps all indexes below the count and pairwise distinct (quantified invariant over the map), getModule returns the stored entry; BuiltinModule.Import returns a copy that is not the shared attribute map and carries the module name, leaving the module untouched. Not decided: LOADMODULE/STOREMODULE arms of VM.loop, compileImportExpr's emission pattern, cyclic import detection, which import executes first.",
